@@ -130,6 +130,23 @@ theorem prod_succ (s : ISrc) (p : Nat) :
   simp only [prod, List.range_succ, List.filterMap_append, List.filterMap_cons, List.filterMap_nil]
   cases s.fn p <;> simp
 
+/-- what the buffer of a buffered request must look like at a pc -/
+inductive BufSt where
+  | acc (a : List Nat)   -- inside the critical section: the first slots hold the accumulator
+  | free                 -- unwinding: anything (the guard's step destroys a loop-owned buffer)
+  | clean                -- outside: a loop-owned buffer holds nothing
+
+def bufSt : Pc → BufSt
+  | .cs _ _ a | .ins _ _ a | .setC _ _ a | .pub _ _ a => .acc a
+  | .unw _ _ => .free
+  | _ => .clean
+
+def BufSt.ok (st : BufSt) (l : List (Option Nat)) (lp : Bool) : Prop :=
+  match st with
+  | .acc a => Prefix l a ∧ (lp = true → somes l = a)
+  | .free => True
+  | .clean => lp = true → somes l = []
+
 /-- `pc` executes request `r` -/
 def PcRuns (pc : Pc) (r : Req) : Prop :=
   (r = .skip ∧ pc = .skp) ∨ (r ≠ .skip ∧ (pcReq pc = some r ∨ ∃ b, pc = .unw b r.len))
@@ -145,10 +162,7 @@ structure TI (c : FCfg) (t : Nat) : Prop where
             ∃ r, opReq (c.d t) op = some r ∧ PcRuns (c.core.th t).pc r
   bufs : (c.d t).dead = false → ∀ op, (c.d t).cur = some op → isQuery op = false →
             (∀ n lp, opReq (c.d t) op = some (.buffered n lp) →
-              ∃ l, actBuf (c.d t) lp = some l ∧ l.length = n ∧
-                (match pcAcc (c.core.th t).pc with
-                 | some acc => Prefix l acc ∧ (lp = true → somes l = acc)
-                 | none => lp = true → (∃ b n', (c.core.th t).pc = .unw b n') ∨ somes l = [])) ∧
+              ∃ l, actBuf (c.d t) lp = some l ∧ l.length = n ∧ (bufSt (c.core.th t).pc).ok l lp) ∧
             ((∀ n, opReq (c.d t) op ≠ some (.buffered n true)) → (c.d t).lbuf = none)
   deadOk : (c.d t).dead = true → (c.d t).lbuf = none ∧ coreAcc (c.core.th t).pc = []
 
@@ -337,7 +351,7 @@ theorem step_call (s : ISrc) (hown : s.owning = true) (t : Nat) (c : FCfg) (hW :
         · intro n lp hreq
           simp [opReq, bsz, hb] at hreq
           obtain ⟨rfl, rfl⟩ := hreq
-          exact ⟨l, by simp [actBuf, hb], rfl, by simp [pcAcc, setTh]⟩
+          exact ⟨l, by simp [actBuf, hb], rfl, by simp [bufSt, BufSt.ok, setTh]⟩
         · intro _; simp [hlb]
       · intro hd'; simp [hd] at hd'
       · intro p; simp [held, hlb, hpc, coreAcc, hb]
@@ -372,7 +386,7 @@ theorem step_call (s : ISrc) (hown : s.owning = true) (t : Nat) (c : FCfg) (hW :
         · intro n' lp hreq
           simp [opReq, reqOf] at hreq
           obtain ⟨rfl, rfl⟩ := hreq
-          exact ⟨List.replicate (m + 2) none, by simp [actBuf], by simp, by simp [pcAcc, setTh, somes_replicate_none]⟩
+          exact ⟨List.replicate (m + 2) none, by simp [actBuf], by simp, by simp [bufSt, BufSt.ok, setTh, somes_replicate_none]⟩
         · intro hne; exact absurd (by simp [opReq, reqOf]) (hne (m + 2))
       · intro hd'; simp [hd] at hd'
       · intro p; simp [held, hlb, hpc, coreAcc, somes_replicate_none, somes_nil]
@@ -407,7 +421,7 @@ theorem step_call (s : ISrc) (hown : s.owning = true) (t : Nat) (c : FCfg) (hW :
         · intro n' lp hreq
           simp [opReq, reqOf] at hreq
           obtain ⟨rfl, rfl⟩ := hreq
-          exact ⟨List.replicate (m + 2) none, by simp [actBuf], by simp, by simp [pcAcc, setTh, somes_replicate_none]⟩
+          exact ⟨List.replicate (m + 2) none, by simp [actBuf], by simp, by simp [bufSt, BufSt.ok, setTh, somes_replicate_none]⟩
         · intro hne; exact absurd (by simp [opReq, reqOf]) (hne (m + 2))
       · intro hd'; simp [hd] at hd'
       · intro p; simp [held, hlb, hpc, coreAcc, somes_replicate_none, somes_nil]
@@ -442,7 +456,7 @@ theorem step_call (s : ISrc) (hown : s.owning = true) (t : Nat) (c : FCfg) (hW :
         · intro n' lp hreq
           simp [opReq, reqOf] at hreq
           obtain ⟨rfl, rfl⟩ := hreq
-          exact ⟨List.replicate (m + 2) none, by simp [actBuf], by simp, by simp [pcAcc, setTh, somes_replicate_none]⟩
+          exact ⟨List.replicate (m + 2) none, by simp [actBuf], by simp, by simp [bufSt, BufSt.ok, setTh, somes_replicate_none]⟩
         · intro hne; exact absurd (by simp [opReq, reqOf]) (hne (m + 2))
       · intro hd'; simp [hd] at hd'
       · intro p; simp [held, hlb, hpc, coreAcc, somes_replicate_none, somes_nil]
@@ -489,5 +503,765 @@ theorem step_query (s : ISrc) (t : Nat) (c : FCfg) (h : TI c t) (hd : (c.d t).de
         · refine ⟨⟨?_, ?_, ?_, ?_, ?_⟩, ?_⟩ <;> simp_all [held, coreAcc, bsz]
         · refine ⟨⟨?_, ?_, ?_, ?_, ?_⟩, ?_⟩ <;> simp_all [held, coreAcc, bsz, isQuery]
     · refine ⟨⟨?_, ?_, ?_, ?_, ?_⟩, ?_⟩ <;> simp_all [held, coreAcc, bsz]
+
+/-- for an op that talks to the protocol machine, `stepAux` is the protocol branch -/
+theorem stepAux_proto (s : ISrc) (t : Nat) (c : FCfg) (core' : Cfg) (op : Op)
+    (hd : (c.d t).dead = false) (hcur : (c.d t).cur = some op) (hq : isQuery op = false) :
+    stepAux s t c core' =
+      (let r := insFx s c (c.d t) (c.core.th t).pc (loopParams op).isSome
+                  (match emit s.fn t c.core with | some e => [e] | none => [])
+       if r.2.2.2 then (setD r.1 t r.2.1, r.2.2.1, true) else
+       match ((core'.th t).outs.drop (c.core.th t).outs.length).head? with
+       | none => (setD r.1 t r.2.1, r.2.2.1, true)
+       | some o => retFx s t r.1 r.2.1 op o r.2.2.1) := by
+  unfold stepAux
+  simp only [hd, hcur, Bool.false_eq_true, ↓reduceIte]
+  cases op <;> first | rfl | (simp [isQuery] at hq)
+
+theorem newOut_same (y y' : Thread) (h : y'.outs = y.outs) : (y'.outs.drop y.outs.length).head? = none := by
+  simp [h]
+
+theorem newOut_ret (y : Thread) (r : Req) (o : POut) : ((ret y r o).outs.drop y.outs.length).head? = some o := by
+  unfold ret; split <;> simp
+
+theorem insFx_other (s : ISrc) (c : FCfg) (x : DThread) (pc : Pc) (lp : Bool) (evs : List Ev)
+    (h1 : ∀ r b acc, pc ≠ .ins r b acc) (h2 : ∀ b n, pc ≠ .unw b n) : insFx s c x pc lp evs = (c, x, evs, false) := by
+  cases pc <;> simp_all [insFx]
+
+/-- the step of a thread that executes a protocol op, in terms of the protocol step -/
+theorem step_proto_eq (s : ISrc) (t : Nat) (c : FCfg) (op : Op)
+    (hW : stepW s.fn t c.core = IW.step s.fn t c.core)
+    (hd : (c.d t).dead = false) (hcur : (c.d t).cur = some op) (hq : isQuery op = false) :
+    (step s t c).1 =
+      (let r := insFx s c (c.d t) (c.core.th t).pc (loopParams op).isSome
+                  (match emit s.fn t c.core with | some e => [e] | none => [])
+       let q : FCfg × List Ev × Bool :=
+         if r.2.2.2 then (setD r.1 t r.2.1, r.2.2.1, true) else
+         match (((IW.step s.fn t c.core).th t).outs.drop (c.core.th t).outs.length).head? with
+         | none => (setD r.1 t r.2.1, r.2.2.1, true)
+         | some o => retFx s t r.1 r.2.1 op o r.2.2.1
+       { q.1 with core := if q.2.2 then IW.step s.fn t c.core else c.core }) := by
+  simp only [step, stepAux_proto s t c _ op hd hcur hq, hW]
+
+/-- the protocol machine moves, the decoration does not, nothing is produced or handed over -/
+theorem stepOk_pc (s : ISrc) (t : Nat) (c : FCfg) (core' : Cfg) (h : TI c t) (hd : (c.d t).dead = false)
+    (op : Op) (hcur : (c.d t).cur = some op) (hq : isQuery op = false) (r : Req) (hreq : opReq (c.d t) op = some r)
+    (htodo : (core'.th t).todo = (c.core.th t).todo) (hP : prod s core'.P = prod s c.core.P)
+    (hruns : PcRuns (core'.th t).pc r)
+    (hst : ∀ l lp, (bufSt (c.core.th t).pc).ok l lp → (bufSt (core'.th t).pc).ok l lp)
+    (hacc : coreAcc (core'.th t).pc = coreAcc (c.core.th t).pc) :
+    StepOk s t c { core := core', d := (setD c t (c.d t)).d, mv := (setD c t (c.d t)).mv, dr := (setD c t (c.d t)).dr } := by
+  have hb := h.bufs hd op hcur hq
+  refine ⟨⟨?_, ?_, ?_, ?_, ?_⟩, ?_⟩
+  · intro _; simp only [setD_d_same, htodo]; exact h.todo hd
+  · intro _ hq'
+    simp only [setD_d_same] at hq'
+    rcases hq' with h1 | ⟨op', h1, h2⟩
+    · simp [hcur] at h1
+    · simp [hcur] at h1; subst h1; simp [hq] at h2
+  · intro _ op' hop' _
+    simp only [setD_d_same] at hop' ⊢
+    simp [hcur] at hop'; subst hop'
+    exact ⟨r, hreq, hruns⟩
+  · intro _ op' hop' _
+    simp only [setD_d_same] at hop' ⊢
+    simp [hcur] at hop'; subst hop'
+    refine ⟨?_, hb.2⟩
+    intro n lp hr
+    obtain ⟨l, h1, h2, h3⟩ := hb.1 n lp hr
+    exact ⟨l, h1, h2, hst l lp h3⟩
+  · intro hd'; simp [hd] at hd'
+  · intro p; simp [held, hacc, hP]
+
+theorem retFx_flag (s : ISrc) (t : Nat) (c : FCfg) (x : DThread) (op : Op) (o : POut) (evs : List Ev) :
+    (retFx s t c x op o evs).2.2 = true := by
+  unfold retFx
+  repeat' (first | rfl | split | dsimp only)
+
+/-- the end is reported to the op: it returns; a loop gives its buffer up -/
+theorem retFx_fin (s : ISrc) (t : Nat) (c : FCfg) (x : DThread) (op : Op) (evs : List Ev) (hq : isQuery op = false) :
+    (retFx s t c x op .fin evs).1 =
+      setD c t { x with cur := none, lbuf := if (loopParams op).isSome then none else x.lbuf } := by
+  cases op <;> first | (simp [retFx, loopParams]; done) | (simp [isQuery] at hq)
+
+theorem ret_fin_pc (y : Thread) (r : Req) : (ret y r .fin).pc = .idle ∧ (ret y r .fin).todo = y.todo := by
+  simp [ret]
+
+/-- a pull (or skip) that reports the end / returns without elements: the op is over, nothing is held any more -/
+theorem stepOk_fin (s : ISrc) (t : Nat) (c : FCfg) (core' : Cfg) (h : TI c t) (hd : (c.d t).dead = false)
+    (op : Op) (hcur : (c.d t).cur = some op) (hq : isQuery op = false) (r : Req)
+    (hth : core'.th t = ret (c.core.th t) r .fin) (hP : core'.P = c.core.P)
+    (hclean : ∀ l lp, (bufSt (c.core.th t).pc).ok l lp → lp = true → somes l = [])
+    (hacc : coreAcc (c.core.th t).pc = []) (evs : List Ev) :
+    StepOk s t c { core := core', d := (retFx s t c (c.d t) op .fin evs).1.d, mv := (retFx s t c (c.d t) op .fin evs).1.mv,
+                   dr := (retFx s t c (c.d t) op .fin evs).1.dr } := by
+  have hb := h.bufs hd op hcur hq
+  obtain ⟨r0, hreq, _⟩ := h.busy hd op hcur hq
+  rw [retFx_fin s t c (c.d t) op evs hq]
+  have hlb : (if (loopParams op).isSome then none else (c.d t).lbuf) = none := by
+    split
+    · rfl
+    · rename_i hnl
+      apply hb.2
+      intro n hn
+      cases op <;> simp_all [opReq, reqOf, loopParams, bsz] <;> (try split at hn) <;> simp_all
+  have hsl : somes ((c.d t).lbuf.getD []) = [] := by
+    cases hl : (c.d t).lbuf with
+    | none => rfl
+    | some l =>
+      -- a live loop buffer: the op is a loop over a buffered request
+      have : ∃ n, opReq (c.d t) op = some (.buffered n true) := by
+        by_cases hx : ∀ n, opReq (c.d t) op ≠ some (.buffered n true)
+        · have := hb.2 hx; simp [hl] at this
+        · simpa using hx
+      obtain ⟨n, hn⟩ := this
+      obtain ⟨l', h1, _, h3⟩ := hb.1 n true hn
+      simp [actBuf, hl] at h1; subst h1
+      simpa using hclean l true h3 rfl
+  refine ⟨⟨?_, ?_, ?_, ?_, ?_⟩, ?_⟩
+  · intro _; simp only [setD_d_same, hth, (ret_fin_pc _ _).2, bsz]; exact h.todo hd
+  · intro _ _; simp [hth, (ret_fin_pc _ _).1, hlb]
+  · intro _ op' hop'; simp at hop'
+  · intro _ op' hop'; simp at hop'
+  · intro hd'; simp [hd] at hd'
+  · intro p
+    simp only [held, setD_d_same, setD_mv, setD_dr, hth, (ret_fin_pc _ _).1, hlb, hP, hacc]
+    simp [hsl, coreAcc, somes_nil]
+
+theorem opReq_congr (x x' : DThread) (op : Op) (h : x'.buf = x.buf) : opReq x' op = opReq x op := by
+  cases op <;> simp [opReq, bsz, h]
+
+theorem opReq_lp (x : DThread) (op : Op) (n : Nat) (lp : Bool) (h : opReq x op = some (.buffered n lp)) :
+    (loopParams op).isSome = lp := by
+  cases op <;> simp_all [opReq, reqOf, loopParams, bsz] <;> (repeat' split at h) <;> (try simp_all) <;> (try (obtain ⟨_, _, _, h3⟩ := h; exact h3))
+
+theorem somes_set_clean (l : List (Option Nat)) (acc : List Nat) (v : Nat) (hp : Prefix l acc) (hs : somes l = acc)
+    (hlt : acc.length < l.length) : somes (setSlot l acc.length (some v)) = acc ++ [v] := by
+  have h1 : somes (l.take acc.length) = acc := by rw [hp, somes_map_some]
+  have h2 : somes (l.drop acc.length) = [] := by
+    have := congrArg somes (List.take_append_drop acc.length l)
+    rw [somes_append, h1, hs] at this
+    simpa using this
+  have h3 : l.drop acc.length = l[acc.length] :: l.drop (acc.length + 1) := by
+    rw [List.drop_eq_getElem_cons hlt]
+  have h4 : somes (l.drop (acc.length + 1)) = [] := by
+    rw [h3] at h2
+    cases hx : l[acc.length] with
+    | none => simpa [hx, somes_cons_none] using h2
+    | some o => simp [hx, somes_cons_some] at h2
+  unfold setSlot
+  rw [List.set_eq_take_append_cons_drop, if_pos hlt, somes_append, h1, somes_cons_some, h4]
+
+theorem prod_succ_some (s : ISrc) (p v : Nat) (h : s.fn p = .some v) : prod s (p + 1) = prod s p ++ [v] := by
+  rw [prod_succ, h]
+theorem prod_succ_none (s : ISrc) (p : Nat) (h : s.fn p = .none) : prod s (p + 1) = prod s p := by
+  rw [prod_succ, h]; simp
+theorem prod_succ_panic (s : ISrc) (p : Nat) (h : s.fn p = .panic) : prod s (p + 1) = prod s p := by
+  rw [prod_succ, h]; simp
+
+/-- the (index, value) pairs a loop's closure sees for an output -/
+def pairsOf : POut → List (Nat × Nat)
+  | .item b v => [(b, v)]
+  | .chunk b vals => ((List.range vals.length).zip vals).map fun (i, v) => (b + i, v)
+  | _ => []
+
+theorem pairsOf_snd_chunk (b : Nat) (vals : List Nat) : (pairsOf (.chunk b vals)).map (·.2) = vals := by
+  simp only [pairsOf, List.map_map]
+  have : ((fun x : Nat × Nat => x.2) ∘ fun x : Nat × Nat => (b + x.1, x.2)) = fun x => x.2 := by funext x; rfl
+  rw [this]
+  exact List.map_snd_zip (by simp)
+
+theorem pairsOf_len_chunk (b : Nat) (vals : List Nat) : (pairsOf (.chunk b vals)).length = vals.length := by
+  simp [pairsOf]
+
+/-- a loop op receives elements: its closure visits them (all, or up to a panic) -/
+theorem retFx_loop (s : ISrc) (t : Nat) (c : FCfg) (x : DThread) (op : Op) (o : POut) (evs : List Ev)
+    (n : Nat) (wi : Bool) (pa : Option Nat) (isf : Bool) (hl : loopParams op = some (n, wi, pa, isf)) (ho : o ≠ .fin) :
+    (retFx s t c x op o evs).1 =
+      (match (visitAll s wi pa (pairsOf o) x.visits x.sum []).2.2.2 with
+       | none =>
+         setD { c with mv := c.mv ++ (pairsOf o).map (·.2) } t
+           { x with visits := (visitAll s wi pa (pairsOf o) x.visits x.sum []).2.1,
+                    sum := (visitAll s wi pa (pairsOf o) x.visits x.sum []).2.2.1,
+                    lbuf := x.lbuf.map fun l => (List.replicate (pairsOf o).length none) ++ l.drop (pairsOf o).length }
+       | some restLen =>
+         setD { c with mv := c.mv ++ ((pairsOf o).take ((pairsOf o).length - restLen)).map (·.2),
+                       dr := c.dr ++ (if s.owning then ((pairsOf o).drop ((pairsOf o).length - restLen)).map (·.2) else []) } t
+           { x with dead := true, lbuf := none }) := by
+  cases op <;> simp [loopParams] at hl <;>
+  · obtain ⟨rfl, rfl, rfl, rfl⟩ := hl
+    cases o <;> first | (exact absurd rfl ho) | (simp only [retFx, loopParams, pairsOf]; split <;> simp_all)
+
+
+theorem count_take_drop (l : List Nat) (k p : Nat) : (l.take k).count p + (l.drop k).count p = l.count p := by
+  rw [← List.count_append, List.take_append_drop]
+
+/-- how a consumer splits a chunk: discarded by `nth`, taken, left in the chunk -/
+theorem count_split3 (vals : List Nat) (sk j p : Nat) (h : sk ≤ j) :
+    (vals.take sk).count p + ((vals.take j).drop sk).count p + (vals.drop j).count p = vals.count p := by
+  have h1 := count_take_drop (vals.take j) sk p
+  have h2 := count_take_drop vals j p
+  have h3 : (vals.take j).take sk = vals.take sk := by rw [List.take_take, Nat.min_eq_left h]
+  rw [h3] at h1
+  omega
+
+theorem step_proto (s : ISrc) (hown : s.owning = true) (t : Nat) (c : FCfg)
+    (hW : stepW s.fn t c.core = IW.step s.fn t c.core) (hi : Inv s.fn c.core) (h : TI c t)
+    (hd : (c.d t).dead = false) (op : Op) (hcur : (c.d t).cur = some op) (hq : isQuery op = false) :
+    StepOk s t c (step s t c).1 := by
+  obtain ⟨r, hreq, hruns⟩ := h.busy hd op hcur hq
+  have hbufs := h.bufs hd op hcur hq
+  have htodo := h.todo hd
+  rw [step_proto_eq s t c op hW hd hcur hq]
+  cases hpc : (c.core.th t).pc with
+  | resv r' =>
+    have hr : r' = r := by
+      rcases hruns with ⟨_, h2⟩ | ⟨_, h2 | ⟨b, h2⟩⟩ <;> simp [hpc, pcReq] at h2; exact h2
+    subst hr
+    rw [insFx_other _ _ _ _ _ _ (by simp) (by simp)]
+    have hst : IW.step s.fn t c.core = setTh { c.core with R := c.core.R + r'.len } t { (c.core.th t) with pc := .pre r' c.core.R } := by
+      simp [IW.step, hpc]
+    simp only [hst, Bool.false_eq_true, ↓reduceIte, setTh_th_same, newOut_same]
+    exact stepOk_pc s t c _ h hd op hcur hq r' hreq (by simp) (by simp)
+      (Or.inr ⟨by rcases hruns with ⟨h1, h2⟩ | ⟨h1, _⟩ <;> simp_all, Or.inl (by simp [pcReq])⟩)
+      (by simp [hpc, bufSt]) (by simp [hpc, coreAcc])
+  | pre r' b =>
+    have hr : r' = r := by
+      rcases hruns with ⟨_, h2⟩ | ⟨_, h2 | ⟨b0, h2⟩⟩ <;> simp [hpc, pcReq] at h2; exact h2
+    subst hr
+    have hrs : r' ≠ .skip := by rcases hruns with ⟨h1, h2⟩ | ⟨h1, _⟩ <;> simp_all
+    rw [insFx_other _ _ _ _ _ _ (by simp) (by simp)]
+    by_cases hC : c.core.C = true
+    · have hst : IW.step s.fn t c.core = setTh c.core t (ret (c.core.th t) r' .fin) := by simp [IW.step, hpc, hC]
+      simp only [hst, setTh_th_same, newOut_ret, retFx_flag, Bool.false_eq_true, ↓reduceIte]
+      exact stepOk_fin s t c _ h hd op hcur hq r' (by simp) (by simp) (by simp [hpc, bufSt, BufSt.ok]) (by simp [hpc, coreAcc]) _
+    · have hst : IW.step s.fn t c.core = setTh c.core t { (c.core.th t) with pc := .wait r' b } := by simp [IW.step, hpc, hC]
+      simp only [hst, Bool.false_eq_true, ↓reduceIte, setTh_th_same, newOut_same]
+      exact stepOk_pc s t c _ h hd op hcur hq r' hreq (by simp) (by simp)
+        (Or.inr ⟨hrs, Or.inl (by simp [pcReq])⟩) (by simp [hpc, bufSt, BufSt.ok]) (by simp [hpc, coreAcc])
+  | wait r' b =>
+    have hr : r' = r := by
+      rcases hruns with ⟨_, h2⟩ | ⟨_, h2 | ⟨b0, h2⟩⟩ <;> simp [hpc, pcReq] at h2; exact h2
+    subst hr
+    have hrs : r' ≠ .skip := by rcases hruns with ⟨h1, h2⟩ | ⟨h1, _⟩ <;> simp_all
+    rw [insFx_other _ _ _ _ _ _ (by simp) (by simp)]
+    by_cases hY : b = c.core.Y
+    · have hst : IW.step s.fn t c.core = setTh c.core t { (c.core.th t) with pc := .ent r' b } := by simp [IW.step, hpc, hY]
+      simp only [hst, Bool.false_eq_true, ↓reduceIte, setTh_th_same, newOut_same]
+      exact stepOk_pc s t c _ h hd op hcur hq r' hreq (by simp) (by simp)
+        (Or.inr ⟨hrs, Or.inl (by simp [pcReq])⟩) (by simp [hpc, bufSt, BufSt.ok]) (by simp [hpc, coreAcc])
+    · by_cases hlt : b < c.core.Y
+      · have hst : IW.step s.fn t c.core = setTh c.core t (ret (c.core.th t) r' .fin) := by simp [IW.step, hpc, hY, hlt]
+        simp only [hst, setTh_th_same, newOut_ret, retFx_flag, Bool.false_eq_true, ↓reduceIte]
+        exact stepOk_fin s t c _ h hd op hcur hq r' (by simp) (by simp) (by simp [hpc, bufSt, BufSt.ok]) (by simp [hpc, coreAcc]) _
+      · have hst : IW.step s.fn t c.core = setTh c.core t { (c.core.th t) with pc := .chk r' b } := by simp [IW.step, hpc, hY, hlt]
+        simp only [hst, Bool.false_eq_true, ↓reduceIte, setTh_th_same, newOut_same]
+        exact stepOk_pc s t c _ h hd op hcur hq r' hreq (by simp) (by simp)
+          (Or.inr ⟨hrs, Or.inl (by simp [pcReq])⟩) (by simp [hpc, bufSt, BufSt.ok]) (by simp [hpc, coreAcc])
+  | chk r' b =>
+    have hr : r' = r := by
+      rcases hruns with ⟨_, h2⟩ | ⟨_, h2 | ⟨b0, h2⟩⟩ <;> simp [hpc, pcReq] at h2; exact h2
+    subst hr
+    have hrs : r' ≠ .skip := by rcases hruns with ⟨h1, h2⟩ | ⟨h1, _⟩ <;> simp_all
+    rw [insFx_other _ _ _ _ _ _ (by simp) (by simp)]
+    by_cases hC : c.core.C = true
+    · have hst : IW.step s.fn t c.core = setTh c.core t (ret (c.core.th t) r' .fin) := by simp [IW.step, hpc, hC]
+      simp only [hst, setTh_th_same, newOut_ret, retFx_flag, Bool.false_eq_true, ↓reduceIte]
+      exact stepOk_fin s t c _ h hd op hcur hq r' (by simp) (by simp) (by simp [hpc, bufSt, BufSt.ok]) (by simp [hpc, coreAcc]) _
+    · have hst : IW.step s.fn t c.core = setTh c.core t { (c.core.th t) with pc := .wait r' b } := by simp [IW.step, hpc, hC]
+      simp only [hst, Bool.false_eq_true, ↓reduceIte, setTh_th_same, newOut_same]
+      exact stepOk_pc s t c _ h hd op hcur hq r' hreq (by simp) (by simp)
+        (Or.inr ⟨hrs, Or.inl (by simp [pcReq])⟩) (by simp [hpc, bufSt, BufSt.ok]) (by simp [hpc, coreAcc])
+  | ent r' b =>
+    have hr : r' = r := by
+      rcases hruns with ⟨_, h2⟩ | ⟨_, h2 | ⟨b0, h2⟩⟩ <;> simp [hpc, pcReq] at h2; exact h2
+    subst hr
+    have hrs : r' ≠ .skip := by rcases hruns with ⟨h1, h2⟩ | ⟨h1, _⟩ <;> simp_all
+    rw [insFx_other _ _ _ _ _ _ (by simp) (by simp)]
+    by_cases hC : c.core.C = true
+    · have hst : IW.step s.fn t c.core = setTh c.core t (ret (c.core.th t) r' .fin) := by simp [IW.step, hpc, hC]
+      simp only [hst, setTh_th_same, newOut_ret, retFx_flag, Bool.false_eq_true, ↓reduceIte]
+      exact stepOk_fin s t c _ h hd op hcur hq r' (by simp) (by simp) (by simp [hpc, bufSt, BufSt.ok]) (by simp [hpc, coreAcc]) _
+    · by_cases hit : iters r' b = 0
+      · have hst : IW.step s.fn t c.core = setTh c.core t { (c.core.th t) with pc := .setC r' b [] } := by simp [IW.step, hpc, hC, hit]
+        simp only [hst, Bool.false_eq_true, ↓reduceIte, setTh_th_same, newOut_same]
+        exact stepOk_pc s t c _ h hd op hcur hq r' hreq (by simp) (by simp)
+          (Or.inr ⟨hrs, Or.inl (by simp [pcReq])⟩) (by simp [hpc, bufSt, BufSt.ok, Prefix.nil]) (by simp [hpc, coreAcc])
+      · have hst : IW.step s.fn t c.core = setTh c.core t { (c.core.th t) with pc := .cs r' b [] } := by simp [IW.step, hpc, hC, hit]
+        simp only [hst, Bool.false_eq_true, ↓reduceIte, setTh_th_same, newOut_same]
+        exact stepOk_pc s t c _ h hd op hcur hq r' hreq (by simp) (by simp)
+          (Or.inr ⟨hrs, Or.inl (by simp [pcReq])⟩) (by simp [hpc, bufSt, BufSt.ok, Prefix.nil]) (by simp [hpc, coreAcc])
+  | cs r' b acc =>
+    have hr : r' = r := by
+      rcases hruns with ⟨_, h2⟩ | ⟨_, h2 | ⟨b0, h2⟩⟩ <;> simp [hpc, pcReq] at h2; exact h2
+    subst hr
+    have hrs : r' ≠ .skip := by rcases hruns with ⟨h1, h2⟩ | ⟨h1, _⟩ <;> simp_all
+    rw [insFx_other _ _ _ _ _ _ (by simp) (by simp)]
+    have hst : IW.step s.fn t c.core = setTh c.core t { (c.core.th t) with pc := .ins r' b acc } := by simp [IW.step, hpc]
+    simp only [hst, Bool.false_eq_true, ↓reduceIte, setTh_th_same, newOut_same]
+    exact stepOk_pc s t c _ h hd op hcur hq r' hreq (by simp) (by simp)
+      (Or.inr ⟨hrs, Or.inl (by simp [pcReq])⟩) (by simp [hpc, bufSt, BufSt.ok]) (by simp [hpc, coreAcc])
+  | idle =>
+    rcases hruns with ⟨_, h2⟩ | ⟨_, h2 | ⟨b0, h2⟩⟩ <;> simp [hpc, pcReq] at h2
+  | dead b n =>
+    rcases hruns with ⟨_, h2⟩ | ⟨_, h2 | ⟨b0, h2⟩⟩ <;> simp [hpc, pcReq] at h2
+  | skp =>
+    have hr : r = .skip := by
+      rcases hruns with ⟨h1, _⟩ | ⟨_, h2 | ⟨b0, h2⟩⟩
+      · exact h1
+      · simp [hpc, pcReq] at h2
+      · simp [hpc] at h2
+    subst hr
+    have hop : op = .skip := by
+      cases op <;> simp_all [opReq, reqOf, bsz] <;> (repeat' split at hreq) <;> simp_all
+    subst hop
+    rw [insFx_other _ _ _ _ _ _ (by simp) (by simp)]
+    have hst : IW.step s.fn t c.core = setTh { c.core with C := true } t (ret (c.core.th t) .skip .unit) := by simp [IW.step, hpc]
+    have hlb : (c.d t).lbuf = none := hbufs.2 (by intro n; simp [hreq])
+    simp only [hst, setTh_th_same, newOut_ret, retFx, Bool.false_eq_true, ↓reduceIte]
+    refine ⟨⟨?_, ?_, ?_, ?_, ?_⟩, ?_⟩
+    · intro _; simp [ret, Req.isLoop, bsz]; exact htodo
+    · intro _ _; simp [ret, Req.isLoop, hlb]
+    · intro _ op' hop'; simp at hop'
+    · intro _ op' hop'; simp at hop'
+    · intro hd'; simp [hd] at hd'
+    · intro p; simp [held, hpc, coreAcc, ret, Req.isLoop]
+  | setC r' b acc =>
+    have hr : r' = r := by
+      rcases hruns with ⟨_, h2⟩ | ⟨_, h2 | ⟨b0, h2⟩⟩ <;> simp [hpc, pcReq] at h2; exact h2
+    subst hr
+    have hrs : r' ≠ .skip := by rcases hruns with ⟨h1, h2⟩ | ⟨h1, _⟩ <;> simp_all
+    rw [insFx_other _ _ _ _ _ _ (by simp) (by simp)]
+    by_cases hsg : r'.isSingle = true
+    · have hst : IW.step s.fn t c.core = setTh { c.core with C := true } t (ret (c.core.th t) r' .fin) := by simp [IW.step, hpc, hsg]
+      have hacc0 : acc = [] := by
+        have := hi.csLt t r' b acc (Or.inr (Or.inr hpc))
+        have hl : r'.len = 1 := by cases r' <;> simp_all [Req.isSingle, Req.len]
+        cases acc <;> simp_all
+      subst hacc0
+      simp only [hst, setTh_th_same, newOut_ret, retFx_flag, Bool.false_eq_true, ↓reduceIte]
+      exact stepOk_fin s t c _ h hd op hcur hq r' (by simp) (by simp) (by simp [hpc, bufSt, BufSt.ok]) (by simp [hpc, coreAcc]) _
+    · have hst : IW.step s.fn t c.core = setTh { c.core with C := true } t { (c.core.th t) with pc := .pub r' b acc } := by simp [IW.step, hpc, hsg]
+      simp only [hst, Bool.false_eq_true, ↓reduceIte, setTh_th_same, newOut_same]
+      exact stepOk_pc s t c _ h hd op hcur hq r' hreq (by simp) (by simp)
+        (Or.inr ⟨hrs, Or.inl (by simp [pcReq])⟩) (by simp [hpc, bufSt, BufSt.ok]) (by simp [hpc, coreAcc])
+  | unw b n =>
+    have hst : IW.step s.fn t c.core = setTh { c.core with C := true } t { (c.core.th t) with pc := .dead b n } := by simp [IW.step, hpc]
+    simp only [insFx, hst, ↓reduceIte]
+    refine ⟨⟨?_, ?_, ?_, ?_, ?_⟩, ?_⟩
+    · intro hd'; simp at hd'
+    · intro hd'; simp at hd'
+    · intro hd'; simp at hd'
+    · intro hd'; simp at hd'
+    · intro _; simp [coreAcc]
+    · intro p
+      by_cases hl : (loopParams op).isSome = true
+      · cases hlb : (c.d t).lbuf <;> simp [held, hpc, coreAcc, hl, hlb, hown, List.count_append, somes_nil] <;> omega
+      · have hlb : (c.d t).lbuf = none := by
+          apply hbufs.2
+          intro n hn
+          cases op <;> simp_all [opReq, reqOf, loopParams, bsz] <;> (try split at hn) <;> simp_all
+        simp [held, hpc, coreAcc, hl, hlb]
+  | ins r' b acc =>
+    have hr : r' = r := by
+      rcases hruns with ⟨_, h2⟩ | ⟨_, h2 | ⟨b0, h2⟩⟩ <;> simp [hpc, pcReq] at h2; exact h2
+    subst hr
+    have hrs : r' ≠ .skip := by rcases hruns with ⟨h1, h2⟩ | ⟨h1, _⟩ <;> simp_all
+    have hcsLt := hi.csLt t r' b acc (Or.inr (Or.inl hpc))
+    cases hs : s.fn c.core.P with
+    | none =>
+      have hst : IW.step s.fn t c.core = setTh { c.core with P := c.core.P + 1 } t { (c.core.th t) with pc := .setC r' b acc } := by
+        simp [IW.step, hpc, hs]
+      simp only [insFx, hs, hst, Bool.false_eq_true, ↓reduceIte, setTh_th_same, newOut_same]
+      exact stepOk_pc s t c _ h hd op hcur hq r' hreq (by simp) (by simp [prod_succ_none s _ hs])
+        (Or.inr ⟨hrs, Or.inl (by simp [pcReq])⟩) (by simp [hpc, bufSt, BufSt.ok]) (by simp [hpc, coreAcc])
+    | panic =>
+      have hst : IW.step s.fn t c.core = setTh { c.core with P := c.core.P + 1 } t { (c.core.th t) with pc := .unw b r'.len } := by
+        simp [IW.step, hpc, hs]
+      simp only [insFx, hs, hst, Bool.false_eq_true, ↓reduceIte, setTh_th_same, newOut_same]
+      refine ⟨⟨?_, ?_, ?_, ?_, ?_⟩, ?_⟩
+      · intro _; simp; exact htodo
+      · intro _ hq'
+        simp only [setD_d_same] at hq'
+        rcases hq' with h1 | ⟨op', h1, h2⟩
+        · simp [hcur] at h1
+        · simp [hcur] at h1; subst h1; simp [hq] at h2
+      · intro _ op' hop' _
+        simp only [setD_d_same] at hop' ⊢
+        simp [hcur] at hop'; subst hop'
+        exact ⟨r', hreq, Or.inr ⟨hrs, Or.inr ⟨b, by simp⟩⟩⟩
+      · intro _ op' hop' _
+        simp only [setD_d_same] at hop' ⊢
+        simp [hcur] at hop'; subst hop'
+        refine ⟨?_, hbufs.2⟩
+        intro n lp hn
+        obtain ⟨l, h1, h2, _⟩ := hbufs.1 n lp hn
+        exact ⟨l, h1, h2, by simp [bufSt, BufSt.ok]⟩
+      · intro hd'; simp [hd] at hd'
+      · intro p
+        simp only [held, setD_d_same, setD_mv, setD_dr, setTh_th_same, hpc, coreAcc, prod_succ_panic s _ hs, setTh_P]
+        cases r' with
+        | chunk n => simp [isBuffered, hown, List.count_append]; omega
+        | single lp =>
+          have : acc = [] := by cases acc <;> simp_all [Req.len]
+          simp [isBuffered, this]
+        | buffered n lp => simp [isBuffered]
+        | skip => simp at hrs
+    | some v =>
+      have hst : ∃ pc', IW.step s.fn t c.core = setTh { c.core with P := c.core.P + 1 } t { (c.core.th t) with pc := pc' } ∧
+          (pc' = .cs r' b (acc ++ [v]) ∨ pc' = .setC r' b (acc ++ [v]) ∨ pc' = .pub r' b (acc ++ [v])) := by
+        simp only [IW.step, hpc, hs]
+        split
+        · split
+          · exact ⟨_, rfl, Or.inr (Or.inl rfl)⟩
+          · exact ⟨_, rfl, Or.inr (Or.inr rfl)⟩
+        · exact ⟨_, rfl, Or.inl rfl⟩
+      obtain ⟨pc', hst, hpc'⟩ := hst
+      have hreq' : pcReq pc' = some r' := by rcases hpc' with h1 | h1 | h1 <;> simp [h1, pcReq]
+      have hbs' : bufSt pc' = .acc (acc ++ [v]) := by rcases hpc' with h1 | h1 | h1 <;> simp [h1, bufSt]
+      have hca' : coreAcc pc' = if isBuffered r' then [] else acc ++ [v] := by rcases hpc' with h1 | h1 | h1 <;> simp [h1, coreAcc]
+      cases r' with
+      | skip => simp at hrs
+      | single lp0 =>
+        simp only [insFx, hs, hst, Bool.false_eq_true, ↓reduceIte, setTh_th_same, newOut_same]
+        refine ⟨⟨?_, ?_, ?_, ?_, ?_⟩, ?_⟩
+        · intro _; simp; exact htodo
+        · intro _ hq'
+          simp only [setD_d_same] at hq'
+          rcases hq' with h1 | ⟨op', h1, h2⟩
+          · simp [hcur] at h1
+          · simp [hcur] at h1; subst h1; simp [hq] at h2
+        · intro _ op' hop' _
+          simp only [setD_d_same] at hop' ⊢
+          simp [hcur] at hop'; subst hop'
+          exact ⟨_, hreq, Or.inr ⟨hrs, Or.inl (by simpa using hreq')⟩⟩
+        · intro _ op' hop' _
+          simp only [setD_d_same] at hop' ⊢
+          simp [hcur] at hop'; subst hop'
+          refine ⟨?_, hbufs.2⟩
+          intro n lp hn
+          rw [hreq] at hn; simp at hn
+        · intro hd'; simp [hd] at hd'
+        · intro p
+          simp only [held, setD_d_same, setD_mv, setD_dr, setTh_th_same, hpc, hca', prod_succ_some s _ _ hs, setTh_P]
+          simp [coreAcc, isBuffered, List.count_append]; omega
+      | chunk n0 =>
+        simp only [insFx, hs, hst, Bool.false_eq_true, ↓reduceIte, setTh_th_same, newOut_same]
+        refine ⟨⟨?_, ?_, ?_, ?_, ?_⟩, ?_⟩
+        · intro _; simp; exact htodo
+        · intro _ hq'
+          simp only [setD_d_same] at hq'
+          rcases hq' with h1 | ⟨op', h1, h2⟩
+          · simp [hcur] at h1
+          · simp [hcur] at h1; subst h1; simp [hq] at h2
+        · intro _ op' hop' _
+          simp only [setD_d_same] at hop' ⊢
+          simp [hcur] at hop'; subst hop'
+          exact ⟨_, hreq, Or.inr ⟨hrs, Or.inl (by simpa using hreq')⟩⟩
+        · intro _ op' hop' _
+          simp only [setD_d_same] at hop' ⊢
+          simp [hcur] at hop'; subst hop'
+          refine ⟨?_, hbufs.2⟩
+          intro n lp hn
+          rw [hreq] at hn; simp at hn
+        · intro hd'; simp [hd] at hd'
+        · intro p
+          simp only [held, setD_d_same, setD_mv, setD_dr, setTh_th_same, hpc, hca', prod_succ_some s _ _ hs, setTh_P]
+          simp [coreAcc, isBuffered, List.count_append]; omega
+      | buffered n lp =>
+        obtain ⟨l, hab, hlen, hok⟩ := hbufs.1 n lp hreq
+        simp only [hpc, bufSt, BufSt.ok] at hok
+        obtain ⟨hpre, hcl⟩ := hok
+        have hlp := opReq_lp _ _ _ _ hreq
+        have hlt : acc.length < l.length := by simpa [hlen, Req.len] using hcsLt
+        cases lp with
+        | false =>
+          have hbuf : (c.d t).buf = some l := by simpa [actBuf] using hab
+          have hlb : (c.d t).lbuf = none := hbufs.2 (by intro n'; rw [hreq]; simp)
+          simp only [insFx, hs, hlp, hbuf, hst, Bool.false_eq_true, ↓reduceIte, setTh_th_same, newOut_same]
+          have hop : ∃ kk, op = .bufnext kk := by
+            cases op <;> simp_all [opReq, reqOf, bsz] <;> (repeat' split at hreq) <;> simp_all
+          obtain ⟨kk, rfl⟩ := hop
+          refine ⟨⟨?_, ?_, ?_, ?_, ?_⟩, ?_⟩
+          · intro _; simp [bsz, setSlot]; simpa [bsz, hbuf] using htodo
+          · intro _ hq'
+            simp only [setD_d_same] at hq'
+            rcases hq' with h1 | ⟨op', h1, h2⟩
+            · simp [hcur] at h1
+            · simp [hcur] at h1; subst h1; simp [isQuery] at h2
+          · intro _ op' hop' _
+            simp only [setD_d_same] at hop' ⊢
+            simp [hcur] at hop'; subst hop'
+            refine ⟨.buffered n false, ?_, Or.inr ⟨hrs, Or.inl (by simpa using hreq')⟩⟩
+            simp [opReq, bsz, setSlot, hlen]
+          · intro _ op' hop' _
+            simp only [setD_d_same] at hop' ⊢
+            simp [hcur] at hop'; subst hop'
+            refine ⟨?_, ?_⟩
+            · intro n' lp' hn
+              simp [opReq, bsz, setSlot, hlen] at hn
+              obtain ⟨rfl, rfl⟩ := hn
+              refine ⟨setSlot l acc.length (some v), by simp [actBuf], by simp [setSlot, hlen], ?_⟩
+              simp only [setTh_th_same, hbs', BufSt.ok]
+              exact ⟨hpre.snoc v hlt, by simp⟩
+            · intro _; simpa using hlb
+          · intro hd'; simp [hd] at hd'
+          · intro p
+            have hset := count_somes_set l acc.length v p hlt
+            simp only [held, setD_d_same, setD_mv, setD_dr, setTh_th_same, hpc, hca', prod_succ_some s _ _ hs, setTh_P]
+            simp only [coreAcc, hbuf, hlb, isBuffered, ↓reduceIte, Option.getD_some, Option.getD_none, hown, List.count_append, somes_nil,
+              List.count_nil] at hset ⊢
+            generalize List.count p (somes (setSlot l acc.length (some v))) = A at hset ⊢
+            generalize (List.count p (match l.getD acc.length none with | some o => [o] | none => [])) = B at hset ⊢
+            omega
+        | true =>
+          have hlbuf : (c.d t).lbuf = some l := by simpa [actBuf] using hab
+          simp only [insFx, hs, hlp, hlbuf, hst, Bool.false_eq_true, ↓reduceIte, setTh_th_same, newOut_same]
+          refine ⟨⟨?_, ?_, ?_, ?_, ?_⟩, ?_⟩
+          · intro _; simp [bsz]; simpa [bsz] using htodo
+          · intro _ hq'
+            simp only [setD_d_same] at hq'
+            rcases hq' with h1 | ⟨op', h1, h2⟩
+            · simp [hcur] at h1
+            · simp [hcur] at h1; subst h1; simp [hq] at h2
+          · intro _ op' hop' _
+            simp only [setD_d_same] at hop' ⊢
+            simp [hcur] at hop'; subst hop'
+            refine ⟨.buffered n true, ?_, Or.inr ⟨hrs, Or.inl (by simpa using hreq')⟩⟩
+            have : opReq { (c.d t) with lbuf := some (setSlot l acc.length (some v)) } op = opReq (c.d t) op := by
+              cases op <;> simp [opReq, bsz]
+            rw [this]; exact hreq
+          · intro _ op' hop' _
+            simp only [setD_d_same] at hop' ⊢
+            simp [hcur] at hop'; subst hop'
+            have hsame : opReq { (c.d t) with lbuf := some (setSlot l acc.length (some v)) } op = opReq (c.d t) op := by
+              cases op <;> simp [opReq, bsz]
+            refine ⟨?_, ?_⟩
+            · intro n' lp' hn
+              rw [hsame, hreq] at hn; simp at hn
+              obtain ⟨rfl, rfl⟩ := hn
+              refine ⟨setSlot l acc.length (some v), by simp [actBuf], by simp [setSlot, hlen], ?_⟩
+              simp only [setTh_th_same, hbs', BufSt.ok]
+              exact ⟨hpre.snoc v hlt, fun _ => somes_set_clean l acc v hpre (hcl rfl) hlt⟩
+            · intro hne; exact absurd (by rw [hsame]; exact hreq) (hne n)
+          · intro hd'; simp [hd] at hd'
+          · intro p
+            have hset := count_somes_set l acc.length v p hlt
+            simp only [held, setD_d_same, setD_mv, setD_dr, setTh_th_same, hpc, hca', prod_succ_some s _ _ hs, setTh_P]
+            simp only [coreAcc, hlbuf, isBuffered, ↓reduceIte, Option.getD_some, hown, List.count_append, List.count_nil] at hset ⊢
+            generalize List.count p (somes (setSlot l acc.length (some v))) = A at hset ⊢
+            generalize (List.count p (match l.getD acc.length none with | some o => [o] | none => [])) = B at hset ⊢
+            omega
+  | pub r' b acc =>
+    have hr : r' = r := by
+      rcases hruns with ⟨_, h2⟩ | ⟨_, h2 | ⟨b0, h2⟩⟩ <;> simp [hpc, pcReq] at h2; exact h2
+    subst hr
+    have hrs : r' ≠ .skip := by rcases hruns with ⟨h1, h2⟩ | ⟨h1, _⟩ <;> simp_all
+    rw [insFx_other _ _ _ _ _ _ (by simp) (by simp)]
+    have haccLe := (hi.accOk t b r'.len (by simp [hpc, Pc.ticket])).2
+    simp only [hpc, Pc.acc] at haccLe
+    cases acc with
+    | nil =>
+      have hst : IW.step s.fn t c.core = setTh { c.core with Y := c.core.Y + r'.len } t (ret (c.core.th t) r' .fin) := by
+        simp [IW.step, hpc]
+      simp only [hst, setTh_th_same, newOut_ret, retFx_flag, Bool.false_eq_true, ↓reduceIte]
+      exact stepOk_fin s t c _ h hd op hcur hq r' (by simp) (by simp) (by simp [hpc, bufSt, BufSt.ok]) (by simp [hpc, coreAcc]) _
+    | cons v rest =>
+      cases r' with
+      | skip => simp at hrs
+      | single lp =>
+        have hrest : rest = [] := by
+          simp [Req.len] at haccLe; exact haccLe
+        subst hrest
+        have hst : IW.step s.fn t c.core = setTh { c.core with Y := c.core.Y + (Req.single lp).len } t (ret (c.core.th t) (.single lp) (.item b v)) := by
+          simp [IW.step, hpc, Req.isSingle]
+        simp only [hst, setTh_th_same, newOut_ret, retFx_flag, Bool.false_eq_true, ↓reduceIte]
+        have hlb : (c.d t).lbuf = none := hbufs.2 (by intro n'; rw [hreq]; simp)
+        cases lp with
+        | false =>
+          have hop : op = .next ∨ op = .nextv := by
+            cases op <;> simp_all [opReq, reqOf, bsz] <;> (repeat' split at hreq) <;> simp_all
+          rcases hop with rfl | rfl <;>
+          · simp only [retFx]
+            refine ⟨⟨?_, ?_, ?_, ?_, ?_⟩, ?_⟩
+            · intro _; simp [ret, Req.isLoop, bsz]; exact htodo
+            · intro _ _; simp [ret, Req.isLoop, hlb]
+            · intro _ op' hop'; simp at hop'
+            · intro _ op' hop'; simp at hop'
+            · intro hd'; simp [hd] at hd'
+            · intro p; simp [held, hpc, coreAcc, ret, Req.isLoop, isBuffered, hlb, List.count_append]; omega
+        | true =>
+          have hlp : ∃ wi pa isf, loopParams op = some (1, wi, pa, isf) := by
+            cases op <;> simp_all [opReq, reqOf, bsz, loopParams] <;> (repeat' split at hreq) <;> simp_all
+          obtain ⟨wi, pa, isf, hlp⟩ := hlp
+          have hretpc : (ret (c.core.th t) (.single true) (.item b v)).pc = .resv (.single true) ∧
+              (ret (c.core.th t) (.single true) (.item b v)).todo = (c.core.th t).todo := by simp [ret, Req.isLoop]
+          rw [show ∀ (X : FCfg) (core' : Cfg), ({ core := core', d := X.d, mv := X.mv, dr := X.dr } : FCfg) = { X with core := core' } from fun _ _ => rfl,
+            retFx_loop s t c (c.d t) op (.item b v) _ 1 wi pa isf hlp (by simp)]
+          simp only [pairsOf, List.map_cons, List.map_nil, List.length_cons, List.length_nil]
+          split
+          · -- the closure returned
+            refine ⟨⟨?_, ?_, ?_, ?_, ?_⟩, ?_⟩
+            · intro _; simp [hretpc.2, bsz]; exact htodo
+            · intro _ hq'
+              simp only [setD_d_same] at hq'
+              rcases hq' with h1 | ⟨op', h1, h2⟩
+              · simp [hcur] at h1
+              · simp [hcur] at h1; subst h1; simp [hq] at h2
+            · intro _ op' hop' _
+              simp only [setD_d_same] at hop' ⊢
+              simp [hcur] at hop'; subst hop'
+              refine ⟨.single true, ?_, Or.inr ⟨by simp, Or.inl (by simp [hretpc.1, pcReq])⟩⟩
+              exact (opReq_congr (c.d t) _ op rfl).trans hreq
+            · intro _ op' hop' _
+              simp only [setD_d_same] at hop' ⊢
+              simp [hcur] at hop'; subst hop'
+              refine ⟨?_, ?_⟩
+              · intro n' lp' hn; have hn' := (opReq_congr (c.d t) _ op rfl).symm.trans hn; rw [hreq] at hn'; simp at hn'
+              · intro _; simp [hlb]
+            · intro hd'; simp [hd] at hd'
+            · intro p; simp [held, hpc, coreAcc, hretpc.1, isBuffered, hlb, List.count_append]; omega
+          · -- the closure panicked
+            rename_i restLen _
+            refine ⟨⟨?_, ?_, ?_, ?_, ?_⟩, ?_⟩
+            · intro hd'; simp at hd'
+            · intro hd'; simp at hd'
+            · intro hd'; simp at hd'
+            · intro hd'; simp at hd'
+            · intro _; simp [hretpc.1, coreAcc]
+            · intro p
+              have := count_take_drop [v] (1 - restLen) p
+              simp [held, hpc, coreAcc, hretpc.1, isBuffered, hlb, List.count_append, hown] at this ⊢
+              omega
+      | chunk n =>
+        have hst : IW.step s.fn t c.core = setTh { c.core with Y := c.core.Y + (Req.chunk n).len } t (ret (c.core.th t) (.chunk n) (.chunk b (v :: rest))) := by
+          simp [IW.step, hpc, Req.isSingle]
+        simp only [hst, setTh_th_same, newOut_ret, retFx_flag, Bool.false_eq_true, ↓reduceIte]
+        have hlb : (c.d t).lbuf = none := hbufs.2 (by intro n'; rw [hreq]; simp)
+        have hop : ∃ kk, op = .chunk n kk := by
+          cases op <;> simp_all [opReq, reqOf, bsz] <;> (repeat' split at hreq) <;> simp_all
+        obtain ⟨kk, rfl⟩ := hop
+        simp only [retFx]
+        refine ⟨⟨?_, ?_, ?_, ?_, ?_⟩, ?_⟩
+        · intro _; simp [ret, Req.isLoop, bsz]; exact htodo
+        · intro _ _; simp [ret, Req.isLoop, hlb]
+        · intro _ op' hop'; simp at hop'
+        · intro _ op' hop'; simp at hop'
+        · intro hd'; simp [hd] at hd'
+        · intro p
+          have h3 := count_split3 (v :: rest) (kk.skipped (v :: rest).length) (takeCount kk (v :: rest).length) p
+            (Take.skipped_le_count _ _)
+          simp only [held, setD_d_same, setD_mv, setD_dr, setTh_th_same, hpc, coreAcc, ret, Req.isLoop, isBuffered, hlb, hown,
+            List.count_append, ↓reduceIte, setTh_P, Bool.false_and, Bool.false_eq_true, false_and, setD_core] at h3 ⊢
+          simp only [List.count_nil] at h3 ⊢
+          omega
+      | buffered n lp =>
+        have hst : IW.step s.fn t c.core = setTh { c.core with Y := c.core.Y + (Req.buffered n lp).len } t (ret (c.core.th t) (.buffered n lp) (.chunk b (v :: rest))) := by
+          simp [IW.step, hpc, Req.isSingle]
+        simp only [hst, setTh_th_same, newOut_ret, retFx_flag, Bool.false_eq_true, ↓reduceIte]
+        obtain ⟨l, hab, hlen, hok⟩ := hbufs.1 n lp hreq
+        simp only [hpc, bufSt, BufSt.ok] at hok
+        obtain ⟨hpre, hcl⟩ := hok
+        have hle := hpre.le
+        cases lp with
+        | false =>
+          have hbuf : (c.d t).buf = some l := by simpa [actBuf] using hab
+          have hlb : (c.d t).lbuf = none := hbufs.2 (by intro n'; rw [hreq]; simp)
+          have hop : ∃ kk, op = .bufnext kk := by
+            cases op <;> simp_all [opReq, reqOf, bsz] <;> (repeat' split at hreq) <;> simp_all
+          obtain ⟨kk, rfl⟩ := hop
+          have hj : takeCount kk (v :: rest).length ≤ (v :: rest).length := Take.count_le _ _
+          simp only [retFx, hbuf, Option.map_some]
+          refine ⟨⟨?_, ?_, ?_, ?_, ?_⟩, ?_⟩
+          · intro _
+            have : bsz { (c.d t) with cur := none, buf := some (List.replicate (takeCount kk (v :: rest).length) none ++ List.drop (takeCount kk (v :: rest).length) l) } = bsz (c.d t) := by
+              simp only [bsz, hbuf, Option.map_some, List.length_append, List.length_replicate, List.length_drop]
+              congr 1; omega
+            simp only [setD_d_same, setTh_th_same, ret, Req.isLoop, Bool.false_and, Bool.false_eq_true, false_and, ↓reduceIte, this]
+            exact htodo
+          · intro _ _; simp [ret, Req.isLoop, hlb]
+          · intro _ op' hop'; simp at hop'
+          · intro _ op' hop'; simp at hop'
+          · intro hd'; simp [hd] at hd'
+          · intro p
+            have h1 := count_somes_take_drop l (takeCount kk (v :: rest).length) p
+            have h2 := hpre.somes_take (takeCount kk (v :: rest).length) hj
+            have h3 := count_take_drop ((v :: rest).take (takeCount kk (v :: rest).length)) (kk.skipped (v :: rest).length) p
+            have h4 : ((v :: rest).take (takeCount kk (v :: rest).length)).take (kk.skipped (v :: rest).length) = (v :: rest).take (kk.skipped (v :: rest).length) := by
+              rw [List.take_take, Nat.min_eq_left (by unfold takeCount; exact Take.skipped_le_count _ _)]
+            rw [h2] at h1
+            rw [h4] at h3
+            simp only [held, setD_d_same, setD_mv, setD_dr, setTh_th_same, hpc, coreAcc, ret, Req.isLoop, isBuffered, hlb, hbuf, hown,
+              List.count_append, ↓reduceIte, setTh_P, Bool.false_and, Bool.false_eq_true, false_and, setD_core, Option.getD_some,
+              Option.getD_none, somes_append, somes_replicate_none, somes_nil, List.count_nil] at h1 h3 ⊢
+            omega
+        | true =>
+          have hlbuf : (c.d t).lbuf = some l := by simpa [actBuf] using hab
+          have hsl : somes l = v :: rest := hcl rfl
+          have hlp : ∃ wi pa isf, loopParams op = some (n, wi, pa, isf) := by
+            cases op <;> simp_all [opReq, reqOf, bsz, loopParams] <;> (repeat' split at hreq) <;> simp_all
+          obtain ⟨wi, pa, isf, hlp⟩ := hlp
+          have hretpc : (ret (c.core.th t) (.buffered n true) (.chunk b (v :: rest))).pc = .resv (.buffered n true) ∧
+              (ret (c.core.th t) (.buffered n true) (.chunk b (v :: rest))).todo = (c.core.th t).todo := by simp [ret, Req.isLoop]
+          have hdrop : somes (l.drop (v :: rest).length) = [] := by
+            have h1 := congrArg somes (List.take_append_drop (v :: rest).length l)
+            rw [somes_append, hpre.somes_take _ (Nat.le_refl _), List.take_length, hsl] at h1
+            simpa using h1
+          rw [show ∀ (X : FCfg) (core' : Cfg), ({ core := core', d := X.d, mv := X.mv, dr := X.dr } : FCfg) = { X with core := core' } from fun _ _ => rfl,
+            retFx_loop s t c (c.d t) op (.chunk b (v :: rest)) _ n wi pa isf hlp (by simp)]
+          simp only [pairsOf_snd_chunk, pairsOf_len_chunk]
+          split
+          · -- the closure visited the whole chunk
+            refine ⟨⟨?_, ?_, ?_, ?_, ?_⟩, ?_⟩
+            · intro _; simp [hretpc.2, bsz]; exact htodo
+            · intro _ hq'
+              simp only [setD_d_same] at hq'
+              rcases hq' with h1 | ⟨op', h1, h2⟩
+              · simp [hcur] at h1
+              · simp [hcur] at h1; subst h1; simp [hq] at h2
+            · intro _ op' hop' _
+              simp only [setD_d_same] at hop' ⊢
+              simp [hcur] at hop'; subst hop'
+              exact ⟨.buffered n true, (opReq_congr (c.d t) _ op rfl).trans hreq, Or.inr ⟨by simp, Or.inl (by simp [hretpc.1, pcReq])⟩⟩
+            · intro _ op' hop' _
+              simp only [setD_d_same] at hop' ⊢
+              simp [hcur] at hop'; subst hop'
+              refine ⟨?_, ?_⟩
+              · intro n' lp' hn
+                have hn' := (opReq_congr (c.d t) _ op rfl).symm.trans hn
+                rw [hreq] at hn'; simp at hn'
+                obtain ⟨rfl, rfl⟩ := hn'
+                refine ⟨List.replicate (v :: rest).length none ++ l.drop (v :: rest).length, by simp [actBuf, hlbuf], ?_, ?_⟩
+                · simp only [List.length_append, List.length_replicate, List.length_drop]; omega
+                · simp only [setTh_th_same, hretpc.1, bufSt, BufSt.ok]
+                  intro _; rw [somes_append, somes_replicate_none, hdrop]; rfl
+              · intro hne
+                exact absurd ((opReq_congr (c.d t) _ op rfl).trans hreq) (hne n)
+            · intro hd'; simp [hd] at hd'
+            · intro p
+              simp only [held, setD_d_same, setD_mv, setD_dr, setTh_th_same, hpc, coreAcc, hretpc.1, isBuffered, hlbuf,
+                List.count_append, ↓reduceIte, setTh_P, Option.map_some, Option.getD_some, somes_append, somes_replicate_none, hdrop, hsl,
+                List.count_nil]
+              omega
+          · -- the closure panicked
+            rename_i restLen _
+            refine ⟨⟨?_, ?_, ?_, ?_, ?_⟩, ?_⟩
+            · intro hd'; simp at hd'
+            · intro hd'; simp at hd'
+            · intro hd'; simp at hd'
+            · intro hd'; simp at hd'
+            · intro _; simp [hretpc.1, coreAcc]
+            · intro p
+              have h1 := count_take_drop ((pairsOf (.chunk b (v :: rest))).map (·.2)) ((v :: rest).length - restLen) p
+              rw [pairsOf_snd_chunk] at h1
+              have h2 : ((pairsOf (.chunk b (v :: rest))).take ((v :: rest).length - restLen)).map (·.2) = (v :: rest).take ((v :: rest).length - restLen) := by
+                rw [List.map_take, pairsOf_snd_chunk]
+              have h3 : ((pairsOf (.chunk b (v :: rest))).drop ((v :: rest).length - restLen)).map (·.2) = (v :: rest).drop ((v :: rest).length - restLen) := by
+                rw [List.map_drop, pairsOf_snd_chunk]
+              simp only [held, setD_d_same, setD_mv, setD_dr, setTh_th_same, hpc, coreAcc, hretpc.1, isBuffered, hlbuf, hown,
+                List.count_append, ↓reduceIte, setTh_P, Option.getD_some, Option.getD_none, somes_nil, hsl, h2, h3, List.count_nil]
+              omega
+
+
 
 end Orx.IWF
